@@ -403,7 +403,7 @@ def run(ctx):
                     'spec constructor never calls super().__init__ (schema '
                     'validation is skipped)', ctx.loc(f))
             continue
-        pre = body[:idx]
+        pre = [s_ for s_ in body[:idx] if not U.is_log_stmt(s_)]
         # statements before validation may only be pure one-line transforms
         # of the input (RetrySpec) - they must not subscript / iterate data
         bad = [s for s in pre if any(
